@@ -1071,13 +1071,16 @@ def _get_slice_stmtlike_old(
     prefix = [''] * (del_prespace + 1) if del_prespace and not ld_neg else None  # if maybe requested leading space returned (ld_neg=False) and there was leading space deleted then add this many leading empty lines, this is a HACK because old stmtlike slicing did not support this, need to redo
     suffix = [''] * (del_postspace + 1) if del_postspace and not tr_neg else None  # same for trailing space
 
+    docstr = fst.FST.get_option('docstr', options)
+    docstr_strict_exclude = (asts[0]
+                             if asts and (start or field != 'body' or ast.__class__ not in ASTS_LEAF_MAYBE_DOCSTR) else
+                             None)  # if slice gotten doesn't start at 0 or is not from a block which can have a docstr then first element cannot be a 'strict' docstr even though it is first in the new slice
+
+    if one and docstr == 'strict' and not docstr_strict_exclude and get_ast.__class__ is Expr:  # a single statement gotten from a 'strict' docstr position will be root and so not recognized as being in that position, but for a lone Expr statement True is equivalent to 'strict' as it only applies if it is a string, and needs to be dedented here the same as in a slice because a put to a docstr position will indent it
+        docstr = True
+
     fst_, _ = self._make_fst_and_dedent(indent, get_ast, copy_loc, prefix, suffix, put_loc, put_lines,
-                                        docstr=fst.FST.get_option('docstr', options),
-                                        docstr_strict_exclude=(
-                                            asts[0]
-                                            if asts and (start or field != 'body'
-                                                         or ast.__class__ not in ASTS_LEAF_MAYBE_DOCSTR) else
-                                            None))  # if slice gotten doesn't start at 0 or is not from a block which can have a docstr then first element cannot be a 'strict' docstr even though it is first in the new slice
+                                        docstr=docstr, docstr_strict_exclude=docstr_strict_exclude)
 
     if cut and is_last_child:  # correct for removed last child nodes or last nodes past the block open colon
         _set_end_pos_after_del(self, block_loc.ln, block_loc.col, put_loc.ln, put_loc.col)
